@@ -81,6 +81,8 @@ pub enum Op {
     TrapExit,
     /// `unset HOME`: a variable that every process starts with (known finding R57)
     UnsetInherited { name: String },
+    /// `export -n HOME`: a variable that every process starts with as exported loses the attribute, keeps its value (R64)
+    UnexportInherited { name: String },
     /// `PATH=/vh-nonexistent`: no external command is found anymore, also not by the carrier
     BreakPath,
 }
@@ -361,6 +363,7 @@ impl Op {
             Op::WipeState => "carrier.wipe-state-dir".into(),
             Op::TrapExit => "trap.exit".into(),
             Op::UnsetInherited { .. } => "var.unset-inherited".into(),
+            Op::UnexportInherited { .. } => "var.unexport-inherited".into(),
             Op::BreakPath => "var.path-broken".into(),
         }
     }
@@ -394,6 +397,7 @@ impl Op {
             Op::WipeState => "carrier.wipe",
             Op::TrapExit => "trap.exit",
             Op::UnsetInherited { .. } => "var.unset-inherited",
+            Op::UnexportInherited { .. } => "var.unexport-inherited",
             Op::BreakPath => "var.path-broken",
         }
     }
@@ -447,6 +451,7 @@ impl Op {
             Op::RmCwd => "command mkdir -p vh-gone && cd vh-gone && { command rmdir \"$PWD\" || true; }".into(),
             Op::TrapExit => "trap 'true' EXIT".into(),
             Op::UnsetInherited { name } => format!("unset {name}"),
+            Op::UnexportInherited { name } => format!("export -n {name}"),
             Op::BreakPath => "PATH=/vh-nonexistent".into(),
             Op::WipeState => "case \"${__SCRUT_TEMP_STATE_PATH:-}\" in */tmp/.state.*) command rm -rf -- \"$__SCRUT_TEMP_STATE_PATH\" ;; esac".into(),
         }
@@ -1168,7 +1173,7 @@ fn gen_history(rng: &mut Rng) -> History {
         rm_cwd: rng.chance(1, 14),
         wipe_state: rng.chance(1, 10),
         trap_exit: rng.chance(1, 25),
-        unset_inherited: rng.chance(1, 25),
+        unset_inherited: rng.chance(2, 25),
         break_path: rng.chance(1, 25),
     };
     let n_steps = rng.range(2, 8);
@@ -1234,7 +1239,11 @@ fn gen_history(rng: &mut Rng) -> History {
             ops.push(Op::TrapExit);
         }
         if force_unset_inherited == Some(si) {
-            ops.push(Op::UnsetInherited { name: "HOME".into() });
+            if rng.bool() {
+                ops.push(Op::UnsetInherited { name: "HOME".into() });
+            } else {
+                ops.push(Op::UnexportInherited { name: "HOME".into() });
+            }
         }
         if force_break_path == Some(si) {
             ops.push(Op::BreakPath);
@@ -1315,6 +1324,7 @@ impl Monitor for C12 {
             ("probed:carrier.wipe".into(), f(10, 150)),
             ("probed:trap.exit".into(), f(2, 30)),
             ("probed:var.unset-inherited".into(), f(2, 30)),
+            ("probed:var.unexport-inherited".into(), f(2, 30)),
             ("probed:var.path-broken".into(), f(2, 30)),
             ("probed:fn.dashed".into(), f(15, 225)),
             ("probed:alias".into(), f(70, 1050)),
